@@ -9,7 +9,7 @@ try:
     vh = vlib.build_harness(work)
     tf, ev, dt = vlib.execute(work, vh, "x", [rp["program"]], [rp["store"]], rp.get("obs", ["refs", "sess"]), rp.get("seed", 1))
     fi = rp["failure"]["i"]
-    print("failure:", rp["failure"])
+    print("failure:", json.dumps(rp["failure"])[:3000])
     for line in open(tf):
         e = json.loads(line)
         if e["k"] != "op":
